@@ -277,7 +277,7 @@ theorem skipSeps_spec (s sep : List α) (hsep : sep ≠ []) (k pos : Nat) :
 
 
 omit [DecidableEq α] in
-theorem byteLen_foldl (s : List α) (n : Nat) :
+theorem byteLen_foldl_l (s : List α) (n : Nat) :
     s.foldl (fun n c => n + cx.blen c) n = n + byteLen cx s := by
   unfold byteLen
   induction s generalizing n with
@@ -287,18 +287,18 @@ theorem byteLen_foldl (s : List α) (n : Nat) :
     omega
 
 omit [DecidableEq α] in
-@[simp] theorem byteLen_nil : byteLen cx ([] : List α) = 0 := rfl
+@[simp] theorem byteLen_nil_l : byteLen cx ([] : List α) = 0 := rfl
 
 omit [DecidableEq α] in
-theorem byteLen_cons (c : α) (t : List α) : byteLen cx (c :: t) = cx.blen c + byteLen cx t := by
+theorem byteLen_cons_l (c : α) (t : List α) : byteLen cx (c :: t) = cx.blen c + byteLen cx t := by
   show (c :: t).foldl (fun n c => n + cx.blen c) 0 = _
-  rw [List.foldl_cons, byteLen_foldl, Nat.zero_add]
+  rw [List.foldl_cons, byteLen_foldl_l, Nat.zero_add]
 
 omit [DecidableEq α] in
-theorem byteLen_append (a b : List α) : byteLen cx (a ++ b) = byteLen cx a + byteLen cx b := by
+theorem byteLen_append_l (a b : List α) : byteLen cx (a ++ b) = byteLen cx a + byteLen cx b := by
   induction a with
   | nil => simp
-  | cons c t ih => rw [List.cons_append, byteLen_cons, byteLen_cons, ih]; omega
+  | cons c t ih => rw [List.cons_append, byteLen_cons_l, byteLen_cons_l, ih]; omega
 
 omit [DecidableEq α] in
 theorem byteOff_eq (t : List α) (k : Nat) : byteOff cx t k = byteLen cx (t.take k) := rfl
@@ -308,7 +308,7 @@ theorem byteLen_eq_zero (hb : ∀ a, 0 < cx.blen a) (s : List α) (h : byteLen c
   cases s with
   | nil => rfl
   | cons c t =>
-    rw [byteLen_cons] at h
+    rw [byteLen_cons_l] at h
     have := hb c
     omega
 
@@ -320,9 +320,9 @@ theorem atomsForBytes_prefix (hb : ∀ a, 0 < cx.blen a) (p q : List α) :
   | cons c t ih =>
     have hc := hb c
     obtain ⟨m, hm⟩ : ∃ m, byteLen cx (c :: t) = m + 1 := ⟨byteLen cx (c :: t) - 1, by
-      rw [byteLen_cons]; omega⟩
+      rw [byteLen_cons_l]; omega⟩
     have hm' := hm
-    rw [byteLen_cons] at hm'
+    rw [byteLen_cons_l] at hm'
     rw [hm, List.cons_append, atomsForBytes, if_pos ⟨by omega, hc⟩]
     have : m + 1 - cx.blen c = byteLen cx t := by omega
     rw [this, ih]
@@ -333,7 +333,7 @@ omit [DecidableEq α] in
 theorem byteSlice_parts (hb : ∀ a, 0 < cx.blen a) (bf sel af : List α) :
     byteSlice cx (bf ++ sel ++ af) (byteLen cx bf) (byteLen cx (bf ++ sel)) = .ok sel := by
   unfold byteSlice
-  simp only [byteLen_append, Int.toNat_natCast]
+  simp only [byteLen_append_l, Int.toNat_natCast]
   rw [if_neg (by omega)]
   by_cases hz : byteLen cx sel = 0
   · have := byteLen_eq_zero cx hb sel hz
@@ -345,14 +345,14 @@ theorem byteSlice_parts (hb : ∀ a, 0 < cx.blen a) (bf sel af : List α) :
     rw [hne]
     have h1 := atomsForBytes_prefix cx hb bf (sel ++ af)
     have h2 := atomsForBytes_prefix cx hb (bf ++ sel) af
-    rw [byteLen_append] at h2
+    rw [byteLen_append_l] at h2
     rw [List.append_assoc] at h2
     simp only [List.append_assoc, h1, h2, Bool.false_eq_true, if_false]
     simp
     rfl
 
 omit [DecidableEq α] in
-theorem byteSlice_take_drop (hb : ∀ a, 0 < cx.blen a) (t : List α) (i j : Nat) (hij : i ≤ j) :
+theorem byteSlice_take_drop_l (hb : ∀ a, 0 < cx.blen a) (t : List α) (i j : Nat) (hij : i ≤ j) :
     byteSlice cx t (byteLen cx (t.take i)) (byteLen cx (t.take j)) = .ok ((t.drop i).take (j - i)) := by
   have h := byteSlice_parts cx hb (t.take i) ((t.drop i).take (j - i)) (t.drop j)
   have h1 : t.take i ++ (t.drop i).take (j - i) = t.take j := by
@@ -371,7 +371,7 @@ theorem rangeToIndexes_eq_normRangeRaw (n s e : Int) (hn : 0 ≤ n) :
   simp only [Prod.mk.injEq]
   constructor <;> omega
 
-theorem normRange_eq_raw (n s e : Int) :
+theorem normRange_eq_raw_l (n s e : Int) :
     Spec.normRange n s e =
       Spec.normRangeRaw n (if s == Gen.endSentinel then n else s)
         (if e == Gen.endSentinel then n else e) := rfl
@@ -494,7 +494,7 @@ theorem linesSel_eq_spec (hb : ∀ a, 0 < cx.blen a) (hd : cx.dLineSep ≠ []) (
       (if s == Gen.endSentinel then ((Spec.linePieces ed.text sep nt).length : Int) else s)
       (if e == Gen.endSentinel then ((Spec.linePieces ed.text sep nt).length : Int) else e) hn
     unfold Spec.selectLines at hcat ⊢
-    simp only [hlc, normRange_eq_raw, rangeToIndexes_eq_normRangeRaw _ _ _ hn] at hcat ⊢
+    simp only [hlc, normRange_eq_raw_l, rangeToIndexes_eq_normRangeRaw _ _ _ hn] at hcat ⊢
     generalize Spec.normRangeRaw _ _ _ = se at *
     obtain ⟨st, en⟩ := se
     simp only at hbd hcat ⊢
